@@ -161,17 +161,6 @@ def simulate (cfg : Cfg) (fs0 : FS) (ups : List (String × Contrib × List Strin
 
 def outView (v : View) (implView : Json) : Json := viewJson v (reconcilePts v.idx (implPts implView))
 
-/-! Domain of the property -/
-
-def posCounts (l : AList Nat) : Bool := l.all fun e => e.2 > 0
-
-def contribOk (c : Contrib) : Bool :=
-  posCounts c.ac && posCounts c.pc && posCounts c.cc && posCounts c.tc &&
-  c.tvc.all (fun e => !e.2.isEmpty && posCounts e.2) && decide (c.pts.keys = dedup c.pts.keys)
-
-def fsOk (fs : FS) : Bool :=
-  decide (fs.keys = dedup fs.keys) && fs.all fun e => e.1 ≠ "" && contribOk e.2
-
 open HL.Spec.Rebuild in
 def run (j : Json) : Json := Id.run do
   let cfg := parseCfg j
